@@ -22,6 +22,8 @@ const basePrelude = `(set-option :produce-models true)
 (declare-sort Str 0)
 (declare-fun str_len (Str) Int)
 (declare-fun str_at (Str Int) Int)
+(declare-sort Cplx 0)
+(declare-fun cplx_re (Cplx) Real)
 (define-fun godiv ((a Int) (b Int)) Int (ite (>= a 0) (ite (> b 0) (div a b) (- (div a (- b)))) (ite (> b 0) (- (div (- a) b)) (div (- a) (- b)))))
 (define-fun gomod ((a Int) (b Int)) Int (- a (* b (godiv a b))))
 `
